@@ -45,8 +45,24 @@ async def _run(sc):
             super().__init__(when)
             self.eid = eid
 
+    class Batch(Ev):
+        """an event that is also a (possibly empty) container: its truth value is that of its payload"""
+        def __len__(self):
+            return self.eid % 2
+
+    class SizedSource(core_event.FifoQueueEventSource):
+        """a user-defined source that reports how many events it still holds (falsy once drained)"""
+        def __len__(self):
+            return len(self._queue)
+
+    # a third of the scenarios use such sources / events: the dispatcher must treat them like any other
+    n_total = sum(len(evs) for evs in sc["sources"]) + len(sc["jobs"])
+    sized = sc.get("sized", n_total % 3 == 1)
     for i, evs in enumerate(sc["sources"]):
-        src = core_event.FifoQueueEventSource(events=[Ev(T(w), e) for w, e in evs])
+        if sized:
+            src = SizedSource(events=[(Batch if i % 2 == 0 else Ev)(T(w), e) for w, e in evs])
+        else:
+            src = core_event.FifoQueueEventSource(events=[Ev(T(w), e) for w, e in evs])
         srcs.append(src)
     src_index = {id(s): i for i, s in enumerate(srcs)}
 
@@ -59,7 +75,7 @@ async def _run(sc):
     def apply_effects(effs):
         for f in effs:
             if f[0] == "push":
-                srcs[f[1]].push(Ev(T(f[2]), f[3]))
+                srcs[f[1]].push((Batch if (sized and f[1] % 2 == 0) else Ev)(T(f[2]), f[3]))
                 log.append(("eff", "push", f[1], f[2], f[3], now()))
             else:
                 d.schedule(T(f[1]), make_job(f[2], f[1]))
@@ -213,8 +229,54 @@ async def _run(sc):
     return log, outcome
 
 
+class _Hang(BaseException):
+    pass
+
+
+_ALARM_S = [10]      # once a run has hung, later runs (shrinking, further scenarios) get one second only
+
+
 def run_scenario(sc):
-    return asyncio.run(_run(sc))
+    """One scenario, under a watchdog: a dispatcher that spins without ever yielding to the event loop (so that no asyncio
+    time-out can fire) is interrupted after 10 s of real time, and while it runs the address space may grow by 3 GB at most
+    -- a loop that keeps collecting the same event is an outcome to report, not a reason for the check to hang."""
+    import resource
+    import signal
+    import threading
+    guard = threading.current_thread() is threading.main_thread()
+    old_handler = old_limit = None
+    if guard:
+        def on_alarm(signum, frame):
+            raise _Hang()
+        old_handler = signal.signal(signal.SIGALRM, on_alarm)
+        signal.alarm(_ALARM_S[0])
+        try:
+            old_limit = resource.getrlimit(resource.RLIMIT_AS)
+            with open("/proc/self/statm") as f:
+                vm_now = int(f.read().split()[0]) * resource.getpagesize()
+            want = vm_now + 3 * 1024 ** 3
+            if old_limit[1] != resource.RLIM_INFINITY:
+                want = min(want, old_limit[1])
+            resource.setrlimit(resource.RLIMIT_AS, (want, old_limit[1]))
+        except (OSError, ValueError):
+            old_limit = None
+    try:
+        return asyncio.run(_run(sc))
+    except _Hang:
+        waited, _ALARM_S[0] = _ALARM_S[0], 1
+        return [], "hang: run() was still spinning after %d s of real time without yielding to the event loop" % waited
+    except MemoryError:
+        _ALARM_S[0] = 1
+        return [], "raised:MemoryError() (run() kept allocating without yielding to the event loop)"
+    finally:
+        if guard:
+            signal.alarm(0)
+            signal.signal(signal.SIGALRM, old_handler)
+            if old_limit is not None:
+                try:
+                    resource.setrlimit(resource.RLIMIT_AS, old_limit)
+                except (OSError, ValueError):
+                    pass
 
 
 # ------------------------------------------------------------------------------------------------
